@@ -544,6 +544,12 @@ func (se *SessionExecutor) handleSetAutoCommit(autocommit bool) (err error) {
 
 	// set autocommit = 1
 	if autocommit {
+		// Already in autocommit mode: MySQL treats this as a no-op (it only commits when the
+		// mode flips from 0 to 1), so a transaction opened with BEGIN stays open and keeps
+		// its connections until COMMIT / ROLLBACK.
+		if se.isAutoCommit() {
+			return nil
+		}
 		se.status |= mysql.ServerStatusAutocommit
 		if se.status&mysql.ServerStatusInTrans > 0 {
 			se.status &= ^mysql.ServerStatusInTrans
